@@ -1,6 +1,6 @@
 (* Props/C11.v — SaveCache / LoadCache round trip restores the cache faithfully (block model) *)
 From Coq Require Import ZArith List Bool.
-From Verif Require Import Base.Word64 Model.Persist Proof.PersistP.
+From Verif Require Import Base.Word64 Model.Persist Proof.PersistP Proof.PersistMru.
 Import ListNotations.
 Open Scope Z_scope.
 
@@ -37,6 +37,37 @@ Theorem c11_any_size : forall version st tot cap wcap pcap win prot prob cap' wc
   ((r_wcap (fst res) = wc' /\ r_pcap (fst res) = pc') \/ (r_wcap (fst res) = wcap /\ r_pcap (fst res) = pcap /\ 1 <= wcap /\ cap = cap')).
 Proof. exact reload_any. Qed.
 Print Assumptions c11_any_size.
+
+(* "a subset taken from the most recently used end of each region" (any target size, any elapsed time, any costs >= 0):
+   split the saved region at any entry x that is alive at load time, saved = a ++ x :: t (a: more recently used than x).
+   Then the restored region is (a part of a) ++ (x and a part of t) - x was kept - or (a part of a) ++ (a part of t) in
+   which every entry restored from t costs strictly less than x: nothing that is less recently used than a dropped alive
+   entry is restored unless it is cheaper.  With equal costs the alive part restored is a front segment. *)
+Theorem c11_restored_from_mru_end : forall version st tot cap wcap pcap win prot prob cap' wc' pc' mm' st' wall,
+  (forall e, In e (win ++ prot ++ prob) -> 0 <= pe_pw e) ->
+  let r0 := fresh cap' wc' pc' mm' st' wall in
+  let res := recover version r0 (save version st tot cap wcap pcap win prot prob) in
+  from_front (alive_at st wall) win (r_win (fst res)) /\
+  from_front (alive_at st wall) prot (r_prot (fst res)) /\
+  from_front (alive_at st wall) prob (r_prob (fst res)).
+Proof. exact reload_from_front. Qed.
+Print Assumptions c11_restored_from_mru_end.
+
+(* "order-preserving part" alone (c11_any_size) would not say it: the least recently used end is one too (seeded change C11f) *)
+Theorem c11_lru_end_refuted :
+  let e k := mkPE k (k * 10) 1 1 0 3 in
+  subseq [e 2; e 3] [e 1; e 2; e 3] /\ ~ from_front (fun _ => true) [e 1; e 2; e 3] [e 2; e 3].
+Proof. exact back_end_is_subseq_but_not_from_front. Qed.
+Print Assumptions c11_lru_end_refuted.
+
+(* non-vacuity: capacity 10 saved, loaded into capacity 4 (window 1, protected 2): the front of each region comes back *)
+Example c11_smaller_example :
+  let e k := mkPE k (k * 10) 1 1 0 3 in
+  let res := recover 7 (fresh 4 1 2 3 500 2000)
+                     (save 7 100 10 10 2 6 (map e [1; 2]) (map e [3; 4; 5; 6]) (map e [7; 8; 9; 10])) in
+  snd res = rOK /\ map pe_key (r_win (fst res)) = [1] /\ map pe_key (r_prot (fst res)) = [3; 4] /\
+  map pe_key (r_prob (fst res)) = [7] /\ r_wsz (fst res) = 4.
+Proof. vm_compute. repeat split. Qed.
 
 (* the wall-clock deadline is preserved because the saved clock origin is adopted *)
 Theorem c11_deadline_wallclock : forall (st expire : Z) (r : rstate), r_start r = st -> r_start r + expire = st + expire.
